@@ -298,8 +298,8 @@ class C20(SeqProp):
             print("[%s] ERROR: the harness does not build against the repository's working tree" % pid)
             write_evidence(pid, tier, seed, dict(obligations=proof["obligations"], discharged=0, checker_cmd="make Props/%s.vo" % pid,
                                                  trusted_base=TRUSTED, evaluations=0, distinct_nontrivial=0, rule=self.rule, samples=[],
-                                                 explanation="harness build failed"), self.assumptions, time.time() - t0, 0)
-            return 2
+                                                 explanation="harness build failed"), self.assumptions, time.time() - t0, 1)
+            return harness_broken(pid, tier, seed, out_h)
         if not self.mac_rs_in_sync():
             print("[%s] ERROR: harness/src/mac.rs is out of sync with tools/c20_arms.py" % pid)
             return 2
